@@ -107,6 +107,19 @@ def judge(c: Campaign, spec: dict[str, Any], run: Run, desc: Any, extra=()) -> N
             j = m[ref].get("join", "AND")
             c.violation(f"ran-before-join-met|{j}", case, f"{ref}.t{e['task']} executed at step {e['step']}: {why}",
                         sig={"join": j, "features": features(spec)})
+    # the stage itself must not be claimed (NOT_STARTED -> RUNNING) while its join condition is false either:
+    # the StartStage handler evaluates readiness on exactly the statuses durable before its own step
+    for step, ref, new, writer in changes:
+        if new != "RUNNING" or writer != "StartStage":
+            continue
+        prev = [n for st_, r, n, _w in changes if r == ref and st_ < step]
+        if prev and prev[-1] != "NOT_STARTED":
+            continue  # resumed (SUSPENDED/PAUSED -> RUNNING), not a start
+        okk, why = join_ok(m[ref], status_before(step), skipped)
+        if not okk and not jump_exempt(ref, step):
+            j = m[ref].get("join", "AND")
+            c.violation(f"started-before-join-met|{j}", case, f"stage {ref} went RUNNING at step {step}: {why}",
+                        sig={"join": j, "features": features(spec)})
     c.case(("c03", spec, desc), early > 0, [f"feat:{f}" for f in features(spec)] + list(extra) + (["early-startstage"] if early else []),
            sample={"spec": spec, "schedule": desc, "startstage_while_join_false": early} if early else None)
 
@@ -193,6 +206,11 @@ def sweep_specs() -> dict[str, dict[str, Any]]:
     out = dict(core_corpus())
     for shape in ("nested", "two_routers", "side", "cycle3"):
         out[f"loop-{shape}"] = make_loop(shape, 1, None)
+    # a halting branch next to slower branches under every join type (the window in which only halted / unfinished upstreams exist)
+    for jt, kw in (("AND", {}), ("DISC", {"join": "DISC"}), ("NOFM", {"join": "NOFM", "threshold": 2}), ("OR", {"join": "OR"})):
+        out[f"failbranch-{jt}"] = {"name": f"failbranch-{jt}", "stages": [
+            stage("x", [], [ok()]), stage("b0", ["x"], [{"b": "fail"}]), stage("b1", ["x"], [ok(), ok(), ok()]),
+            stage("b2", ["x"], [ok(), {"b": "fail"}], cof=True), stage("j", ["b0", "b1", "b2"], [ok()], **kw), stage("z", ["j"], [ok()])]}
     return out
 
 
@@ -222,7 +240,7 @@ def run(c: Campaign, jobs: int) -> None:
         for s in spec["stages"]:
             args.append((shard_sweep, (c.prop, c.tier, c.seed, name, s["ref"])))
     run_shards(c, _dispatch, args, jobs)
-    c.exhaustive_parts.append("single injected StartStage: every (stage, delivery position) of the FIFO run of the 23 corpus specs and 4 loop shapes")
+    c.exhaustive_parts.append("single injected StartStage: every (stage, delivery position) of the FIFO run of the 23 corpus specs, 4 loop shapes and 4 failing-branch join specs")
     c.rule = ("case = (spec, schedule, injected StartStage list). Non-trivial = at least one StartStage was delivered while the "
               "stage's join condition was false (the arrival order the property is about), determined from the audit trail. "
               "Distinct = hash of the case.")
